@@ -10,7 +10,9 @@ EXPLANATION = (
     "factor normalises to ite(raw, 1, 2^n_frac) on all branches; R4 the input normaliser's isinstance ladder covers every carrier "
     "named in the statement and ends in raise; R5 no item-assignment into a possibly-immutable input container; R6 the value type used for the pre-scale cast never narrows the carrier (arrays typed by type(val.item(0)), float imposed only for None/strings/Decimal/scaled); R7 codes re-scaled from another fixed-point object that may be fractional are never given an integer value type before the rounding stage; plus the rounding "
     "table and clamp/wrap selection the stages rely on. Residual (declared, not decided): exactness of binary64/NumPy arithmetic "
-    "for particular values, decimal-string parsing via float().")
+    "for particular values, decimal-string parsing via float()."
+    " Added after the third round of seeded changes: R8 decimal strings are converted by float()/int() of the text itself (no int(float(x))); the constructor applies mode keywords to the object's final, unshared configuration (C20.R2)."
+)
 ASSUMPTIONS = ["NumPy rounding primitives and np.clip behave as in the lemma table",
                "calls through self.<name> resolve to the method of that name on Fxp (no monkey-patching)"]
 TRUSTED = ["CPython ast", "fxlint path enumeration/substitution", "lemma table of NumPy primitives"]
